@@ -88,6 +88,9 @@ pub fn run_find_bin_os(cwd: &Path, args: &[std::ffi::OsString], stdin: Option<&[
             }
             continue;
         }
+        if k == "VH_STDOUT" {
+            continue;
+        }
         if k == "VH_RLIMIT_STACK" {
             // not an environment variable: the stack limit (bytes) the child is started with
             use std::os::unix::process::CommandExt;
@@ -113,7 +116,11 @@ pub fn run_find_bin_os(cwd: &Path, args: &[std::ffi::OsString], stdin: Option<&[
     // kept outside the working directory: the files of one run must not show up in its walk
     let outp = cwd.parent().unwrap_or(cwd).join(".stdout.bin");
     let errp = cwd.parent().unwrap_or(cwd).join(".stderr.bin");
-    c.stdout(Stdio::from(std::fs::File::create(&outp).unwrap()));
+    // VH_STDOUT (not an environment variable): where standard output goes instead - e.g. /dev/full
+    match env.iter().find(|(k, _)| k == "VH_STDOUT") {
+        Some((_, path)) => c.stdout(Stdio::from(std::fs::OpenOptions::new().write(true).open(path).unwrap())),
+        None => c.stdout(Stdio::from(std::fs::File::create(&outp).unwrap())),
+    };
     c.stderr(Stdio::from(std::fs::File::create(&errp).unwrap()));
     let mut child = c.spawn().expect("spawn find");
     let t0 = std::time::Instant::now();
